@@ -1438,3 +1438,66 @@ def destructor_walks(ctx):
                 continue
             ctx.check(bad is None and bool(dels), rid, pat + "#all-slots", "every slot (1, 2, 5 slots) is handed to delete_value exactly once",
                       "%s: stored elements are leaked or destroyed twice when the queue is destroyed" % (bad or "no delete_value"), fn.where(), fn=fn)
+
+
+def util_pure_functions(ctx):
+    """UTIL.*: pure integer helpers the containers size and index their storage with, decided by finite evaluation over boundary grids."""
+    from .pure import call_pure
+    U = X + "utils::"
+    rid = "UTIL.next-power-of-two"
+    ctx.rule(rid, "utils::next_power_of_two(v), evaluated for v in 1..1100 and around every power of two up to 2^40, is the smallest power of two >= v; "
+                  "utils::find_last_bit_set(v) is the position of the highest set bit (1-based), is_power_of_two is exact (capacities of nikolaev_bounded_queue "
+                  "and vyukov_hash_map are rounded with these; every ring mask / cycle computation assumes a power of two)")
+    grid = sorted(set(list(range(1, 1101)) + [x for k in range(2, 41) for x in ((1 << k) - 1, 1 << k, (1 << k) + 1)]))
+    if ctx._on(rid):
+        bad = None
+        try:
+            for v in grid:
+                want = 1 << (v - 1).bit_length()
+                got = call_pure(ctx.facts, U + "next_power_of_two", [v], pick=lambda f: f.params and f.params[0].get("sz") == 8)
+                if got != want:
+                    bad = "next_power_of_two(%d) = %s, expected %d" % (v, got, want)
+                    break
+                b = call_pure(ctx.facts, U + "find_last_bit_set", [v], pick=lambda f: f.params and f.params[0].get("sz") == 8)
+                if b != v.bit_length():
+                    bad = "find_last_bit_set(%d) = %s, expected %d" % (v, b, v.bit_length())
+                    break
+                p2 = call_pure(ctx.facts, U + "is_power_of_two", [v], pick=lambda f: f.params and f.params[0].get("sz") == 8)
+                if bool(p2) != (v & (v - 1) == 0):
+                    bad = "is_power_of_two(%d) = %s" % (v, p2)
+                    break
+        except Unknown as ex:
+            ctx.broken.append("utils power-of-two helpers not evaluable (%s)" % ex)
+            bad = False
+        if bad is not False:
+            fn = ctx.facts.shapes(U + "next_power_of_two")[0]
+            ctx.exhaustive[rid] = True
+            ctx.check(bad is None, rid, U + "next_power_of_two#smallest-power-of-two>=v", "%d values: results are exact" % len(grid),
+                      "%s: a container created with such a capacity runs with a size that is not the power of two its index masks assume (slots shared between "
+                      "ring positions, out-of-bounds ring accesses)" % bad, fn.where(), fn=fn)
+    rid = "SCQ.remap-bijection"
+    SCQ = X + "detail::nikolaev_scq::"
+    ctx.rule(rid, "nikolaev_scq::remap_index with the shift of calc_remap_shift(capacity) maps the n = 2*capacity positions of every lap one-to-one onto the "
+                  "slots [0, n) (capacities 1..1024, three laps): two positions sharing a slot, or a slot outside the array, lose / corrupt entries")
+    if ctx._on(rid):
+        bad = None
+        try:
+            for cap in (1, 2, 4, 8, 16, 32, 64, 512, 1024):
+                sh = call_pure(ctx.facts, SCQ + "calc_remap_shift", [cap])
+                n = 2 * cap
+                for lap in range(3):
+                    slots = [call_pure(ctx.facts, SCQ + "remap_index", [(lap * n + j) << 1, sh, n]) for j in range(n)]
+                    if sorted(slots) != list(range(n)):
+                        dup = sorted({s for s in slots if slots.count(s) > 1 or not (0 <= s < n)})[:4]
+                        bad = "capacity %d (n = %d, shift %s), lap %d: positions map to slots %s... (slots %s shared or outside [0, %d))" % (cap, n, sh, lap, slots[:8], dup, n)
+                        break
+                if bad:
+                    break
+        except Unknown as ex:
+            ctx.broken.append("remap_index not evaluable (%s)" % ex)
+            bad = False
+        if bad is not False:
+            fn = ctx.facts.shapes(SCQ + "remap_index")[0]
+            ctx.exhaustive[rid] = True
+            ctx.check(bad is None, rid, SCQ + "remap_index#bijection-per-lap", "capacities 1..1024 x 3 laps: permutation of [0, n)",
+                      "%s" % bad, fn.where(), fn=fn)
